@@ -425,7 +425,7 @@ class Exec:
     __slots__ = ("trace", "err", "key", "nops", "model")
 
 
-def run_execution(sh, ch, nops, maxdev, want_key=False, actions_from=0):
+def run_execution(sh, ch, nops, maxdev, want_key=False, actions_from=0, opset=None):
     """Run `nops` operations (explorer-chosen) on a fresh real machine and on the model in lock step.
     Returns Exec; err = None or (observable, why, message) of the first disagreement."""
     from magicbot.magic_tunable import setup_tunables
@@ -453,6 +453,8 @@ def run_execution(sh, ch, nops, maxdev, want_key=False, actions_from=0):
     step_err = None
     for k in range(nops):
         menu = op_menu(sh, period_open, seen_enable)
+        if opset is not None:
+            menu = [o for o in menu if o[0] in opset or o in opset]
         c = ch.choose(len(menu), "op")
         op = menu[c]
         ctx.events = []
@@ -784,23 +786,23 @@ def _recorder(sh, res, want, maxdev_default, seed):
     rerun_off = seed % rerun_every
     counter = [0]
 
-    def record(ex, ch, mode, md):
+    def record(ex, ch, mode, md, opset=None):
         res.executions += 1
         res.checks += len(ex.trace)
         if ex.err is not None:
             obs, why, msg = ex.err
             ps = props_of(obs, why, sh["auto"]) & want
             if ps:
-                rp = dict(engine="sm", shape=sh, choices=list(ch.choices), nops=ex.nops, maxdev=md, mode=mode, failing_step=len(ex.trace) - 1, trace=_jsonable(ex.trace), source=class_source(sh))
+                rp = dict(engine="sm", shape=sh, choices=list(ch.choices), nops=ex.nops, maxdev=md, opset=opset, mode=mode, failing_step=len(ex.trace) - 1, trace=_jsonable(ex.trace), source=class_source(sh))
                 res.violation(f"{obs}:{why}", f"shape {sh['name']} ({mode}), step {len(ex.trace)-1} {ex.trace[-1]['op']}: {msg}\n" + fmt_trace(ex.trace), rp)
         for (p, clause, msg) in monitors(sh, ex.trace):
             if p in want:
-                rp = dict(engine="sm", shape=sh, choices=list(ch.choices), nops=ex.nops, maxdev=md, mode=mode, trace=_jsonable(ex.trace), source=class_source(sh))
+                rp = dict(engine="sm", shape=sh, choices=list(ch.choices), nops=ex.nops, maxdev=md, opset=opset, mode=mode, trace=_jsonable(ex.trace), source=class_source(sh))
                 res.violation(f"monitor:{clause}", f"shape {sh['name']} ({mode}): {msg}\n" + fmt_trace(ex.trace), rp)
         res.outcome(core.stable_hash(norm_obs(ex.trace)))
         counter[0] += 1
         if counter[0] % rerun_every == rerun_off:
-            ex2 = run_execution(sh, core.Chooser(ch.choices), ex.nops, md)
+            ex2 = run_execution(sh, core.Chooser(ch.choices), ex.nops, md, opset=opset)
             a, b = norm_obs(ex.trace), norm_obs(ex2.trace)
             if a != b:
                 diff = [(x, y) for x, y in zip(a, b) if x != y][:2]
@@ -822,12 +824,12 @@ def explore_level(item):
     found = []
     for prefix in item["prefixes"]:
         def run(ch):
-            ex = run_execution(sh, ch, d + 1, None, want_key=True)
-            record(ex, ch, "bfs", None)
+            ex = run_execution(sh, ch, d + 1, item.get("maxdev"), want_key=True, opset=item.get("opset"))
+            record(ex, ch, item.get("label", "bfs"), item.get("maxdev"), item.get("opset"))
             res.transitions += 1
             if ex.key is not None:
                 found.append((ex.key, tuple(ch.choices)))
-        core.explore_dfs(run, max_dev=None, roots=[tuple(prefix)])
+        core.explore_dfs(run, max_dev=item.get("maxdev"), roots=[tuple(prefix)])
     for p1, p2, n1, n2 in item.get("probes", ()):
         o1 = probe_obs(sh, tuple(p1), n1)
         o2 = probe_obs(sh, tuple(p2), n2)
@@ -843,7 +845,7 @@ def initial_key(sh):
     return run_execution(sh, core.Chooser(()), 0, None, want_key=True).key
 
 
-def bfs_all(pool, res, shapes_depths, pid, seed, probe_every):
+def bfs_all(pool, res, shapes_depths, pid, seed, probe_every, opset=None, maxdev=None, label="bfs"):
     """Level-synchronous BFS with canonical-state merging for several shapes at once; the frontier of each
     level is expanded by the worker pool, de-duplication happens here."""
     seen = {}
@@ -854,7 +856,7 @@ def bfs_all(pool, res, shapes_depths, pid, seed, probe_every):
         if depth <= 0:
             continue
         byname[sh["name"]] = sh
-        seen[sh["name"]] = {initial_key(sh): ()}
+        seen[sh["name"]] = {initial_key(sh): ()}  # the initial state does not depend on the op set
         frontier[sh["name"]] = [()]
         depth_of[sh["name"]] = depth
     info = {n: dict(depth=0, closed=False) for n in byname}
@@ -868,7 +870,7 @@ def bfs_all(pool, res, shapes_depths, pid, seed, probe_every):
                 continue
             chunk = 12
             for k in range(0, len(fr), chunk):
-                items.append(dict(shape=byname[n], prefixes=fr[k:k + chunk], depth=level, props=[pid], seed=seed, probes=pending_probes[n][:4] if k == 0 else ()))
+                items.append(dict(shape=byname[n], prefixes=fr[k:k + chunk], depth=level, props=[pid], seed=seed, probes=pending_probes[n][:4] if k == 0 else (), opset=opset, maxdev=maxdev, label=label))
             pending_probes[n] = []
         if not items:
             break
@@ -896,7 +898,7 @@ def bfs_all(pool, res, shapes_depths, pid, seed, probe_every):
     for n in byname:
         res.states += len(seen[n])
         info[n]["states"] = len(seen[n])
-    res.bounds["bfs"] = info
+    res.bounds[label] = info
 
 
 _nops_cache = {}
@@ -1013,7 +1015,10 @@ def fmt_trace(trace):
 # ------------------------------------------------------------------------------------------ check front end
 
 
-def run_check(pid, tier, seed, shapes, nops, maxdev, bfs_depth, rule_extra="", probe_every=0, sig_names=()):
+TIMING_OPS = ["exec", "iter", "setdur", "on_enable", ("engage", None, False), ("done",), ("on_disable",)]
+
+
+def run_check(pid, tier, seed, shapes, nops, maxdev, bfs_depth, rule_extra="", probe_every=0, sig_names=(), timing_depth=0):
     t0 = time.time()
     items = []
     bfs = []
@@ -1028,13 +1033,16 @@ def run_check(pid, tier, seed, shapes, nops, maxdev, bfs_depth, rule_extra="", p
         for d in pool.run("mc.sm_engine", "explore_shape", items, seed=seed, weight=lambda it: it["nops"]):
             res.merge(d)
         bfs_all(pool, res, bfs, pid, seed, probe_every)
+        if timing_depth:
+            tshapes = [(sh, timing_depth) for sh in shapes if any(st["kind"] == "timed" for st in sh["states"]) and sh["name"] not in sig_names]
+            bfs_all(pool, res, tshapes, pid, seed, 0, opset=TIMING_OPS, maxdev=0, label="timing_bfs")
     res.bounds.update(flat_ops=nops, flat_deviation_bound=maxdev, bfs_depth=bfs_depth, shapes=len(shapes), tick="1/64 s", advances=list(ADVANCES))
     rule = (
         "for each generated machine shape: every sequence of `flat_ops` external operations (engage variants, done, on_disable, "
         "duration-topic edits, execute after a clock advance of 0/1/2/3/long ticks) with at most `flat_deviation_bound` non-trivial in-state "
         "actions (next_state / next_state_now / done, asked at every state-function invocation), run on a fresh real machine and the "
         "reference model in lock step (prefix-replay DFS); then breadth-first search with canonical state merging to `bfs_depth` operations "
-        "with unbounded in-state actions. states = distinct canonical states, transitions = operations executed and compared, "
+        "with unbounded in-state actions, and a second, deeper BFS (`timing_bfs`) over the clock / engage / done / duration-edit operations with passive states. states = distinct canonical states, transitions = operations executed and compared, "
         "distinct outcome = distinct observed trace (calls with arguments, is_executing, current_state per step). " + rule_extra
     )
     assumptions = [
@@ -1058,7 +1066,7 @@ def replay(path):
     for s in sh["states"]:
         s["sig"] = tuple(s["sig"])
     ch = core.Chooser(r["choices"])
-    ex = run_execution(sh, ch, r["nops"], r.get("maxdev"))
+    ex = run_execution(sh, ch, r["nops"], r.get("maxdev"), opset=[tuple(o) if isinstance(o, list) else o for o in r["opset"]] if r.get("opset") else None)
     print(class_source(sh))
     print(fmt_trace(ex.trace))
     mon = monitors(sh, ex.trace)
